@@ -892,8 +892,15 @@ def evaluate_case(chk, c, answers, binary_result, run_result):
     c.lit_ops, c.lit_meta = lit_ops, lit_meta
 
     # ---- tie C: the compiled driver
-    if binary_result is None or getattr(c, "list_mismatch", False):
-        return                      # already reported: the driver is written against the spec's lists
+    if binary_result is None:
+        return
+    if getattr(c, "list_mismatch", False):
+        # already reported (the driver is written against the spec's lists); a compile error is
+        # the same defect seen by g++
+        if binary_result[0] is None:
+            viol("input", "generated header (plus a driver naming every enumerator and helper) does not compile",
+                 "compiles", binary_result[1][-1500:], key=c.list_mismatch_key)
+        return
     binary, log = binary_result
     if binary is None:
         collide = any(len({n for n, _ in s.enumerators()}) != len(s.enumerators()) for s in c.specs)
@@ -1015,6 +1022,9 @@ def spec_key(c, i, bad):
     """Known-finding routing for list mismatches: other-back-end attribute."""
     if c.defs is None:
         return None
+    names = [n for n, _ in c.specs[i].enumerators()] if None not in c.specs[i].cases else []
+    if len(set(names)) != len(names):
+        return CAMEL_KEY
     d = c.defs[i]
     others = [a for lvl in d["levels"] for a in lvl if a["back_end"] != "cpp"] + \
              [a for v in d["values"] for a in v["attrs"] if a["back_end"] != "cpp"]
@@ -1067,6 +1077,7 @@ PINNED = {
             "bits Bh:\n  0 [+8] UInt all\n  0 [+4] Sgn f\n\nstruct Hh:\n  0 [+1] Bh b\n",
             {"holders": [{"enum": 0, "holder": "Hh", "kind": "bits", "w": 4, "container": 8, "offset": 0, "bo": "Little"}]}),
     "ostream8": ("enum Small:\n  [maximum_bits: 8]\n  AB = 1\n", {"holders": []}),
+    "camel": ('enum Foo:\n  [(cpp) $default enum_case: "kCamelCase"]\n  A_1B = 1\n  A1B = 2\n', {"holders": []}),
     "other-backend": ('[expected_back_ends: "cpp, rust"]\n[(rust) $default enum_case: "kCamelCase"]\n'
                       "enum Foo:\n  AB_CD = 1\n", {"holders": []}),
 }
